@@ -38,7 +38,7 @@ CHECKS = {
  "C12": dict(text="Proof (Coq, partial): the three detection rules return 208 at once without starting a job (target being built by an ancestor; script asking for its own target; recorded chain returning to a file under check); cycles of length 1..3 from every entry on the serial model. On the implementation: cycles of length 1..4 behind prefixes, every entry, -j1..4, bound 15 s. The parallel multi-entry hang is known finding F9.",
     note=TB + " termination of the nested recursion is not proved in Coq.",
     technique="Coq proof of the detection rules + bounded-time cyclic scenarios on the implementation", ref="5/C12"),
- "C08": dict(text="Proof (Coq): for every event sequence of any number of redo processes (start, nested begin, token read, cheat, reap with/without cheat byte, release, abandon-on-error-exit, self-test, exit) the quantity Q = T - C + sum(my - cheats) + J - L is conserved; all books and pipes stay non-negative; working jobs <= n + outstanding cheats; the top-level self-test cannot fail; the tokenless exit of finding F7 is exactly the event the model refuses. Tie: trace validation -- every token-book event reported by the hooked implementation in real parallel builds (-j1..8, log capture on/off, failing builds, inherited jobserver, error exits with sibling jobs still running) is replayed through the extracted model, which must accept it and reproduce the reported book and pipe writes. Oracles: self-test message, inherited pipe content, measured work overlap.",
+ "C08": dict(text="Proof (Coq): for every event sequence of any number of redo processes (start, nested begin, token read, cheat, reap with/without cheat byte, release, abandon-on-error-exit, self-test, exit) the quantity Q = T - C + sum(my - cheats) + J - L is conserved; all books and pipes stay non-negative; working jobs <= n + outstanding cheats, and <= n exactly when no cheat is granted (no log capture); with log capture 'n plus at most one' is proved FALSE of the model by a witness trace (known finding F50, driven on the binaries and replayed through the model on every run); the top-level self-test cannot fail; the tokenless exit of finding F7 is exactly the event the model refuses. Tie: trace validation -- every token-book event reported by the hooked implementation in real parallel builds (-j1..8, log capture on/off, failing builds, inherited jobserver, error exits with sibling jobs still running) is replayed through the extracted model, which must accept it and reproduce the reported book and pipe writes. Oracles: self-test message, inherited pipe content, measured work overlap.",
     note=TB + " A-PIPE; the hook verif_token_event is trusted to report the book after each mutation; abort paths (abandoned jobs) are outside the model.",
     technique="Coq invariant proof over a transition system + trace validation of the implementation's own token events", ref="5/C08"),
  "C10": dict(text="Proof (Coq, partial): while a job installs its output the target shows the old bytes until the very last effect and the complete new bytes after it, nothing in between; the enumerated effect sequence is the one record_new_state performs; a failing job never touches the target. The crash state between the rename and the recording commit is finding F8: its refutation is evaluated on the serial model. Decision on the implementation (fault enumeration): an LD_PRELOAD shim numbers every state-changing call (rename, unlink, create/truncate, ftruncate, writes to the state database and its WAL) of every process of a build; for every kill point the calling redo process or the whole process group is killed immediately before the call, then recovery (redo-ifchange; edit a source; redo-ifchange) is checked: termination, exit 0, every target correct, nothing marked overridden, the edit propagated. Known findings F8 and F18 are recognised by their window in the call log.",
